@@ -354,12 +354,12 @@ func genReplay(rng *rand.Rand, idx int, tier string) rCase {
 
 func directedReplay(idx int) *rCase {
 	d := []rCase{
-		{kind: "sqbatched", batch: 5, n: 12, from: 0, fkind: "cancel", fidx: 1},  // cancellation mid-batch
-		{kind: "sqbatched", batch: 4, n: 12, from: 0, fkind: "row", fidx: 6},     // row error mid-batch
-		{kind: "dspaged", chunk: 0, batch: 2, n: 5, from: 0, fkind: "none"},      // batch smaller than the chunk
-		{kind: "dspaged", chunk: 2, batch: 100, n: 7, from: 0, fkind: "none"},    // pages shorter than the batch
-		{kind: "mempaged", batch: 3, n: 7, from: 2, fkind: "readcall", fidx: 1},  // second Read fails
-		{kind: "memstream", n: 5, from: 1, fkind: "cancel", fidx: 3},             // cancel at the last event
+		{kind: "sqbatched", batch: 5, n: 12, from: 0, fkind: "cancel", fidx: 1}, // cancellation mid-batch
+		{kind: "sqbatched", batch: 4, n: 12, from: 0, fkind: "row", fidx: 6},    // row error mid-batch
+		{kind: "dspaged", chunk: 0, batch: 2, n: 5, from: 0, fkind: "none"},     // batch smaller than the chunk
+		{kind: "dspaged", chunk: 2, batch: 100, n: 7, from: 0, fkind: "none"},   // pages shorter than the batch
+		{kind: "mempaged", batch: 3, n: 7, from: 2, fkind: "readcall", fidx: 1}, // second Read fails
+		{kind: "memstream", n: 5, from: 1, fkind: "cancel", fidx: 3},            // cancel at the last event
 		{kind: "sqstream", n: 6, from: 0, fkind: "row", fidx: 0},
 		{kind: "mempaged", batch: 1, n: 4, from: 0, fkind: "callback", fidx: 3},
 	}
